@@ -335,7 +335,12 @@ def mon_C02(s):
                     if j not in last:
                         continue
                     if t["status"] not in ("succeeded", "failed", "canceled", "timeout", "abandoned"):
-                        out.append(V("succeeded with incomplete record %s:%s" % (t["id"], t["status"]), i))
+                        # a record without a status is what an exception escaping update_task_state
+                        # leaves behind (D5b, D31): the finding is the exception, met again here
+                        fin = None
+                        if t["status"] is None:
+                            fin = "D5b" if rearrival_region(s, i) else region_of(s, i)
+                        out.append(V("succeeded with incomplete record %s:%s" % (t["id"], t["status"]), i, fin))
                     if t["id"] == "fail":
                         out.append(V("succeeded although a fail command ran", i))
                     if t["status"] in ("failed", "timeout", "abandoned") and t["id"] not in CMDS and not any(t["next"].values()):
